@@ -73,6 +73,12 @@ EXPLANATION = ("Model: Model/Reveal.v (reveal_plates, mask_screen, unmask_screen
                "(harness/py2gal.py, Generated/SrcReveal.v; Screen(...) = the model's constructor on the keyword arguments the call site "
                "passes): C03_model_is_source_step / _lifecycle, C03_source_variant_unique, C03_ids_frozen_of_source.  Trusted: the translator "
                "and the primitives listed in C12's explanation.")
+# ---- source-translation links of the command-line wrappers (Model/Cli.v, Generated/SrcCli.v) ----
+THEOREMS.update({
+    'C03_model_is_source_cli_prepare_retrospective_simulation': 'the translation of the whole function prepare_retrospective_simulation.main regenerated on this run equals, for every record L of library functions and all parsed arguments, Cli.cli_prepare, which fixes the ORDER: filter, generator from --seed, initial plate (initial generator) or mask_screen, plate generator if any, reveal of a random unobserved plate when there is no initial generator, smoother if any, the hold-out split LAST on the smoothed screen, training and test screens saved; every drawing step receives the generator state its predecessor left',
+    'C03_model_is_source_cli_reveal_plate': 'the translation of the whole function reveal_plate.main regenerated on this run equals Cli.cli_reveal_plate: reveal_plates(load(--screen), --plate-id list) saved to --output',
+})
+EXPLANATION += ("  CLI wrappers: prepare_retrospective_simulation.main and reveal_plate.main are re-translated as WHOLE functions on every run (Generated/SrcCli.v) and proved equal to Model/Cli.v.  These links trust the translator harness/py2gal.py (for these links extended by cfg typed_effects, kwcalls keys `module.function`, state_calls assigned to a tuple), the representation of Model/Cli.v (parsed arguments = a record of the plain argparse results, get_args() not translated = the primitive `get_args()` yielding that record; a main() denotes the list of (path, content) files it writes; `L` = ANY record of library functions over abstract types) and EXACTLY these primitives of harness/src_functions.py, each one field read / one library or constructor call standing for the function of that name (whose own link, where it exists, is the one of its property): CLI_PRNG (get_prng_from_seed_argument, reads args.seed only): numpy.random.SeedSequence(s).generate_state(1)[0] = seedseq_word mix s (ValueError for s < 0, `mix` an arbitrary function of the seed), numpy.random.default_rng(w) = Gen w. CLI_PREPARE: the fields of `args` read as the record's projections (a store to one is refused); ignored: log_config.configure_logging(args), logger.info/warning; Screen.load_h5(p), filter_dataset_to_treatments_that_appear_in_at_least_one_combo(s), get_prng_from_seed_argument(args) (translated), the three args.<x>_cls(**args.<x>_params) constructors, s.plates, p.is_observed, p.plate_id, p.size, s.n_plates, `s.size / n` = py_truediv (ZeroDivisionError for 0), np.std(l) (logged only), keyword calls mask_screen(screen=) and reveal_plates(screen=, plate_ids=), and the five STATE calls on the one generator `rng`, each receiving the generator state and returning the next: g.generate_and_unmask_initial_plate(screen=, rng=rng), g.generate_plates(screen=, rng=rng), rng.choice(l), g.smooth_plates(screen=, rng=rng), create_plate_balanced_holdout_set_among_masked_plates(screen=, fraction=, rng=rng); typed effect r.save_h5(p).  The branches, the Optional initial generator, the comprehension of unobserved plates and the order of all steps come from the translation. CLI_REVEAL_PLATE: the fields of `args` read as the record's projections (a store to one is refused); ignored: log_config.configure_logging(args), logger.info/warning; Screen.load_h5(p), reveal_plates(s, ids), typed effect r.save_h5(p). ")
 
 _CAUSE = {"reveal": "reveal", "cli_reveal": "reveal", "mask": "mask", "unmask": "unmask", "saveload": "saveload", "meta_cli": "saveload",
           "setobs": "setobs"}
